@@ -442,6 +442,20 @@ impl BackgroundQueueBuilder {
             parker,
         };
 
+        #[cfg(metrique_verif)]
+        if __verif_writer::unstarted_requested() {
+            // verification only: hand the writer to the harness instead of to a thread
+            __verif_writer::stash(Box::new((receiver, flush_queue_receiver)));
+            return (
+                inner,
+                BackgroundQueueJoinHandle {
+                    handle: None,
+                    shutdown_signal,
+                    unparker,
+                },
+            );
+        }
+
         let handle = thread::Builder::new()
             .name(self.thread_name)
             .spawn(move || receiver.run(flush_queue_receiver))
@@ -989,12 +1003,12 @@ pub mod __verif_waker {
 pub mod __verif_writer {
     pub use super::__verif_waker::Status;
     use super::{
-        BackgroundQueueBuilder, DrainResult, Entry, EntryIoStream, FlushWait, Inner, Receiver,
-        WakerTracker,
+        BackgroundQueueBuilder, DrainResult, Entry, EntryIoStream, FlushSignal, FlushWait, Inner,
+        Receiver, WakerTracker,
     };
     #[cfg(metrique_verif_loom)]
     use super::std;
-    use super::{Arc, ArrayQueue, AtomicBool, Duration, Instant, Parker};
+    use super::{Arc, Duration, Instant, Ordering};
 
     pub struct Writer<S, E> {
         receiver: Receiver<S, E>,
@@ -1023,37 +1037,40 @@ pub mod __verif_writer {
         }
     }
 
+    ::std::thread_local! {
+        static UNSTARTED: ::std::cell::Cell<bool> = const { ::std::cell::Cell::new(false) };
+        static STASH: ::std::cell::RefCell<Option<Box<dyn ::std::any::Any>>> = const { ::std::cell::RefCell::new(None) };
+    }
+
+    pub(super) fn unstarted_requested() -> bool {
+        UNSTARTED.with(|u| u.replace(false))
+    }
+
+    pub(super) fn stash(writer: Box<dyn ::std::any::Any>) {
+        STASH.with(|s| *s.borrow_mut() = Some(writer));
+    }
+
     impl BackgroundQueueBuilder {
-        /// what `do_build` builds, without the thread
-        pub fn __verif_build_unstarted<S: EntryIoStream, E: Entry>(
-            self,
-            stream: S,
-        ) -> (Producer<E>, Writer<S, E>) {
-            let parker = Parker::default();
-            let unparker = parker.unparker().clone();
-            let (flush_queue_sender, flush_queue_receiver) = std::sync::mpsc::channel();
-            let inner = Arc::new(Inner {
-                name: self.metric_name.unwrap_or_else(|| self.thread_name.clone()),
-                queue: ArrayQueue::new(self.capacity),
-                unparker,
-                flush_queue_sender,
-                recorder: self.metric_recorder,
-            });
-            let receiver = Receiver {
-                metrics_emitted: 0,
-                metric_validation_errors: 0,
-                metric_io_errors: 0,
-                stream,
-                inner: Arc::clone(&inner),
-                flush_interval: self.flush_interval,
-                shutdown_timeout: self.shutdown_timeout,
-                shutdown_signal: Arc::new(AtomicBool::new(false)),
-                parker,
-            };
+        /// the real `do_build`, except that the writer it builds is handed back instead of
+        /// being moved into a thread
+        pub fn __verif_build_unstarted<S, E>(self, stream: S) -> (Producer<E>, Writer<S, E>)
+        where
+            S: EntryIoStream + Send + 'static,
+            E: Entry + Send + 'static,
+        {
+            UNSTARTED.with(|u| u.set(true));
+            let (inner, _join_handle) = self.do_build::<S, E>(stream);
+            let stashed = STASH
+                .with(|s| s.borrow_mut().take())
+                .expect("do_build stashes the writer when asked to");
+            let (receiver, flush_queue_receiver) = *stashed
+                .downcast::<(Receiver<S, E>, std::sync::mpsc::Receiver<FlushSignal>)>()
+                .ok()
+                .expect("the stashed writer has the requested types");
             let writer = Writer {
+                capacity: inner.queue.capacity(),
                 receiver,
                 tracker: WakerTracker::new(flush_queue_receiver),
-                capacity: self.capacity,
             };
             (Producer(inner), writer)
         }
@@ -1112,11 +1129,15 @@ pub mod __verif_writer {
         }
 
         /// what the writer thread does on its way out: `shut_down`, then the tracker (and with
-        /// it every pending flush request) is dropped
-        pub fn shut_down(self) {
+        /// it every pending flush request) is dropped. `signalled`: the join handle set the
+        /// shutdown flag (false = the writer noticed that no queue handle is left).
+        pub fn shut_down(self, signalled: bool) {
             let Writer {
                 receiver, tracker, ..
             } = self;
+            if signalled {
+                receiver.shutdown_signal.store(true, Ordering::Relaxed);
+            }
             receiver.shut_down();
             drop(tracker);
         }
